@@ -11,7 +11,7 @@ namespace ratio
 {
     item::item(core &cr, const context ctx, type &tp) : env(cr, context(ctx)), tp(tp) {}
 
-    lit item::new_eq(item &i) noexcept
+    lit item::new_eq(item &i)
     {
         if (this == &i)
             return TRUE_lit;
@@ -93,7 +93,7 @@ namespace ratio
 
     CORE_EXPORT arith_item::arith_item(core &cr, type &t, const lin &l) : item(cr, context(&cr), t), l(l) { assert(&t == &cr.get_type(INT_KEYWORD) || &t == &cr.get_type(REAL_KEYWORD) || &t == &cr.get_type(TP_KEYWORD)); }
 
-    lit arith_item::new_eq(item &i) noexcept
+    lit arith_item::new_eq(item &i)
     {
         if (this == &i)
             return TRUE_lit;
